@@ -29,6 +29,10 @@ Inductive case :=
 | CCube (welded : bool) (hw hh hd : Z) (nverts : N) (idx rep : list N) (pos : list vec)
 (* large counts: two hashes of the implementation's index list and of its class list *)
 | CHash (f : fam) (nverts nidx : N) (hidx hrep : Z * Z)
+(* very large counts (around 2^14 … 2^16 vertices, where size-dependent code paths of an implementation would start):
+   fingerprints only; closedness, volume and orientation of the implementation's output are judged by the harness,
+   closedness of the model's list for these parameters is a theorem (Properties/C18.v), not re-evaluated here *)
+| CBig (f : fam) (nverts nidx : N) (hidx hrep : Z * Z)
 (* parameters outside the accepted range: did the constructor reject them (panic with an error)? *)
 | CReject (kind : N) (r c : Z) (rejected : bool)
 (* purely numerical observation (convergence of the volume), judged by the harness *)
@@ -45,7 +49,7 @@ Definition canon_reps (cls : N -> N) (n : N) : list N :=
     | Some r => (m, r :: out)
     | None => (PositiveMap.add k v m, v :: out)
     end in
-  rev (snd (fold_left step (nseq n) (PositiveMap.empty N, []))).
+  rev_append (snd (fold_left step (nseq n) (PositiveMap.empty N, []))) []. (* List.rev is quadratic *)
 
 Definition table (l : list N) : PositiveMap.t N :=
   snd (fold_left (fun '(k, m) x => (N.succ k, PositiveMap.add (N.succ_pos k) x m)) l (0, PositiveMap.empty N)).
@@ -79,6 +83,10 @@ Definition corr_ok (c : case) : bool :=
   | CHash f nv ni hi hr =>
       (m_nverts f =? nv) && (N.of_nat (length (m_idx f)) =? ni)
       && pairN_eqb (hash2 (m_idx f)) hi && pairN_eqb (hash2 (canon_reps (m_cls f) nv)) hr
+  | CBig f nv ni hi hr =>
+      let l := m_idx f in
+      (m_nverts f =? nv) && (N.of_nat (length l) =? ni)
+      && pairN_eqb (hash2 l) hi && pairN_eqb (hash2 (canon_reps (m_cls f) nv)) hr
   | CReject k r c rej => Bool.eqb (rejects k r c) rej
   | CGoOnly => true
   end.
@@ -99,6 +107,7 @@ Definition prop_ok (c : case) : bool :=
       (* only hashes of the implementation's lists are available here: closedness of the list they
          hash equal to; the implementation's own list is judged by the harness (closedGo) *)
       wf_idxb nv (m_idx f) && closed_idxb (m_cls f) (m_idx f)
+  | CBig f nv ni hi hr => (ni mod 3 =? 0) && (0 <? nv)      (* whole triangles; the rest is the harness oracle *)
   | CReject _ _ _ _ => true
   | CGoOnly => true
   end.
